@@ -680,11 +680,19 @@ func (fc *followerController) SendSnapshot(stream proto.OxiaLogReplication_SendS
 	return closeStreamWg.Wait(fc.ctx)
 }
 
-func (fc *followerController) readSnapshotStream(stream proto.OxiaLogReplication_SendSnapshotServer, loader kv.SnapshotLoader) (int64, error) {
+func (fc *followerController) readSnapshotStream(stream proto.OxiaLogReplication_SendSnapshotServer, loader kv.SnapshotLoader,
+	firstChunk *proto.SnapshotChunk) (int64, error) {
 	var totalSize int64
 
 	for {
-		snapChunk, err := stream.Recv()
+		var snapChunk *proto.SnapshotChunk
+		var err error
+		if firstChunk != nil {
+			// The first chunk was already received, to validate the term
+			snapChunk, firstChunk = firstChunk, nil
+		} else {
+			snapChunk, err = stream.Recv()
+		}
 		switch {
 		case err != nil:
 			if errors.Is(err, io.EOF) {
@@ -721,11 +729,28 @@ func (fc *followerController) readSnapshotStream(stream proto.OxiaLogReplication
 }
 
 func (fc *followerController) handleSnapshot(stream proto.OxiaLogReplication_SendSnapshotServer) {
+	// Wait for the apply loop to be done with its current round, and keep it out until the
+	// database and the commit offset have been replaced
+	fc.applyMutex.Lock()
+	defer fc.applyMutex.Unlock()
+
 	fc.Lock()
 	defer fc.Unlock()
 
+	// The term of the snapshot has to be validated before touching the local state: a snapshot that
+	// is sent by the leader of a different term must not wipe out the WAL and the DB of this node
+	firstChunk, err := stream.Recv()
+	if err != nil && !errors.Is(err, io.EOF) {
+		fc.closeStreamNoMutex(err)
+		return
+	}
+	if firstChunk != nil && fc.term != wal.InvalidTerm && firstChunk.Term != fc.term {
+		fc.closeStreamNoMutex(constant.ErrInvalidTerm)
+		return
+	}
+
 	// Wipe out both WAL and DB contents
-	err := fc.wal.Clear()
+	err = fc.wal.Clear()
 	if err != nil {
 		fc.closeStreamNoMutex(err)
 		return
@@ -749,9 +774,12 @@ func (fc *followerController) handleSnapshot(stream proto.OxiaLogReplication_Sen
 
 	defer loader.Close()
 
-	totalSize, err := fc.readSnapshotStream(stream, loader)
-	if err != nil {
-		return
+	var totalSize int64
+	if firstChunk != nil {
+		totalSize, err = fc.readSnapshotStream(stream, loader, firstChunk)
+		if err != nil {
+			return
+		}
 	}
 
 	// We have received all the files for the database
